@@ -54,6 +54,60 @@ def upload_buffers(size, thr, chunk, up, rc, c0, c1):
     return None
 
 
+def small_stream_uploads(n, size, thr, up, c0, c1):
+    """C11.1m: `n` uploads of small non-seekable streams (each below the threshold: ONE PutObject whose body is the
+    whole stream, read into memory by the submitter) on one manager: at most max_in_memory_upload_chunks +
+    max_submission_concurrency such buffers exist at any time, however slowly the requests are consumed"""
+    S = ns.Sched([c0, c1])
+    lim = dict(max_request_concurrency=1, max_in_memory_upload_chunks=up, max_submission_concurrency=1,
+               max_request_queue_size=10, max_submission_queue_size=10)
+    c = N.build('up-stream', size, thr, 5 * 1024 ** 2, 1, S, limits=lim, subs=0)
+    futs = [c.future]
+    srcs = [c.src]
+    for i in range(1, n):
+        futs.append(N.submit(c, 'up-stream', size, [], key='key%d' % i))
+        srcs.append(c.src)
+    st = {'live': 0, 'bad': None}
+
+    def watch(src):
+        orig = src.read
+        seen = [False]
+
+        def read(amt=None):
+            d = orig(amt)
+            if not seen[0] and len(d) > 0:
+                seen[0] = True
+                st['live'] += 1
+                if st['live'] > up + 1:
+                    st['bad'] = ('c11: more stream buffers alive than max_in_memory_upload_chunks + '
+                                 'max_submission_concurrency (single-request uploads)')
+            return d
+        src.read = read
+    for src in srcs:
+        watch(src)
+    orig_put = c.s3.put_object
+
+    def put_object(**kw):
+        r = orig_put(**kw)
+        st['live'] -= 1
+        return r
+    c.s3.put_object = put_object
+    v = N.go(c, S, prefer='submission')
+    if v:
+        return v if v == '~' else 'c11: ' + v[5:]
+    for f in futs:
+        if H.outcome(f)[0] != 'ok':
+            return 'c11: transfer failed'
+    if st['bad']:
+        return st['bad']
+    if len(c.s3.body_sizes) != n:
+        return 'c11: not one PutObject per small stream'
+    for b in c.s3.body_sizes:
+        if b > thr:
+            return 'c11: a single buffer larger than max(chunksize, threshold)'
+    return None
+
+
 def download_window(size, thr, chunk, io, dn, rc, iq, c0, c1, c2):
     S = ns.Sched([c0, c1, c2])
     lim = dict(max_request_concurrency=rc, max_in_memory_download_chunks=dn, max_io_queue_size=iq,
@@ -141,6 +195,17 @@ OBLIGATIONS = [
                 'laziest-consumer schedule plus symbolic nested starts',
          encodes=['UploadNonSeekableInputManager.yield_upload_part_bodies', 'BoundedExecutor.submit (tag semaphore)',
                   'TaskSemaphore'], assumptions=['S1', 'S2', 'A4', 'nested (LIFO) schedules only']),
+    dict(id='C11.1m', impl='small_stream_uploads', params='size: int, thr: int, up: int, c0: int, c1: int',
+         cases=[(4,)], cases_thorough=[(4,), (5,)],
+         pre=['1 <= size < thr', '1 <= up <= 2', '0 <= c0 <= 2 and 0 <= c1 <= 2'],
+         splits=[['c0 == 0', 'c1 == 0'], ['c0 >= 1', 'c1 == 0']], splits_thorough=[['c0 == 0'], ['c0 >= 1']],
+         timeout=(170, 900),
+         bounds='4 (thorough 5) concurrent uploads of small non-seekable streams (size symbolic, below the threshold) '
+                'sharing one manager; in-memory chunk limit 1..2, one submitter, one request thread; laziest-consumer '
+                'schedule (submission tasks run whenever they can, requests only when a submitter blocks) plus symbolic nested starts',
+         encodes=['UploadSubmissionTask._submit_upload_request (tag of the PutObject task)',
+                  'UploadNonSeekableInputManager.get_put_object_body', 'BoundedExecutor.submit (tag semaphore)'],
+         assumptions=['S1', 'S2', 'nested (LIFO) schedules only']),
     dict(id='C11.2', impl='download_window',
          params='size: int, thr: int, chunk: int, io: int, dn: int, rc: int, iq: int, c0: int, c1: int, c2: int',
          pre=['1 <= thr <= size', '1 <= chunk', '2 * chunk < size <= 4 * chunk', 'chunk <= io', '1 <= dn <= 3',
